@@ -109,6 +109,7 @@ def run(ctx: Ctx) -> int:
         raise MachineryError(f"a reading that counts only the associations of registered servers is not refuted by TLC: {rt.violated!r}")
     hs = histories(ctx, "AcceptLimit_ok.cfg")
     hs2 = histories(ctx, "AcceptLimit_ok2s.cfg")
+    hsb = histories(ctx, "AcceptLimit_okbad.cfg")
     if thorough:
         hs5 = histories(ctx, "AcceptLimit_ok5.cfg")
     if ctx.violations:
@@ -124,16 +125,19 @@ def run(ctx: Ctx) -> int:
                 + sum(3 for k, (a, _, _) in enumerate(h) if a == "restart" and any(b == "spawn" for b, _, _ in h[k + 1:]) and any(b == "establish" for b, _, _ in h[:k])))
     hs.sort(key=lambda h: (-weight(h), len(h)))
     hs2.sort(key=lambda h: (-weight(h), len(h)))
+    hsb.sort(key=lambda h: (-weight(h), len(h)))
     if not thorough:
-        pick = [(h, 2) for h in hs[:70] + rng.sample(hs[70:], 50)] + [(h, 1) for h in hs2[:40] + rng.sample(hs2[40:], 30)]
+        pick = [(h, 2) for h in hs[:70] + rng.sample(hs[70:], 50)] + [(h, 1) for h in hs2[:40] + rng.sample(hs2[40:], 30)] + [(h, -2) for h in hsb[:40] + rng.sample(hsb[40:], 30)]
     else:
-        pick = [(h, 2) for h in rng.sample(hs, 2500)] + [(h, 1) for h in rng.sample(hs2, 1500)] + [(h, 3) for h in rng.sample(hs5, 600)]
+        pick = [(h, 2) for h in rng.sample(hs, 2500)] + [(h, 1) for h in rng.sample(hs2, 1500)] + [(h, 3) for h in rng.sample(hs5, 600)] + [(h, -2) for h in rng.sample(hsb, min(len(hsb), 1200))]
     obs, lock = [], threading.Lock()
 
     def worker(k):
         for h, mx in pick[k::8]:
             try:
-                o = replay(h, mx)
+                # (a negative maximum marks the histories of AcceptLimit_okbad.cfg: requests 2 and 4 also name a wrong called AE title)
+                o = replay(h, abs(mx), bad=(2, 4) if mx < 0 else ())
+                mx = abs(mx)
             except Exception as e:  # noqa: BLE001
                 o = {"harness_exc": f"{type(e).__name__}: {e}"}
             with lock:
@@ -150,7 +154,7 @@ def run(ctx: Ctx) -> int:
         if "harness_exc" in o:
             continue
         rec = {"id": len(tr) + 1, "kind": "replay", "max": mx, "max_seen": o["max_seen"],
-               "steps": [{"act": s["act"], "t": s["t"], "ok": s["ok"], "nest": len(s["est"]), "decision": (s["decision"] or [""])[0] if s["act"] == "check" else "",
+               "steps": [{"act": s["act"], "t": s["t"], "ok": s["ok"], "nest": len(s["est"]), "decision": (s["decision"] or [""])[0] if s["act"] == "check" else "", "bad": bool(s.get("bad")),
                           "rj": s["rj"] if s["act"] == "rejected" else []} for s in o["steps"]]}
         back[rec["id"]] = (h, o)
         tr.append(rec)
